@@ -81,3 +81,24 @@ Example C05_nonvacuous :
   | None => False
   end.
 Proof. vm_compute. split; [reflexivity | repeat constructor]. Qed.
+
+(* ---- composition with C12: the saved centroids ARE the per-bit majority of their clusters ---- *)
+From BB Require Import Proofs.Compose.
+Theorem C05_centroids_are_majority : forall fexp nf (files : list (list fpv)) (c : mr_cfg) d,
+  Z.of_nat nf < 2 ^ 52 ->
+  Forall (Forall (fun fp : fpv => List.length fp = nf)) files ->
+  zlen (List.concat files) < 2 ^ 53 ->
+  2 <= m_bf c -> (1 <= m_bin c)%nat ->
+  run_multiround fexp c files [] = Some d ->
+  let G := Gmap nf files in
+  let N := zlen (List.concat files) in
+  exists cl,
+    dir_get d "clusters.pkl" = Some (CClusters cl) /\
+    Permutation (List.concat cl) (zseq 0 (Z.to_nat N)) /\
+    NoDup (List.concat cl) /\
+    (m_save_centroids c = true ->
+     exists cs, dir_get d "cluster-centroids-packed.pkl" = Some (CCentroids cs) /\
+       List.length cs = List.length cl /\
+       Forall2 (fun cen ids => ids <> [] ->
+                  cen = map (fun k => zlen ids <=? 2 * k) (colsum nf (map G ids))) cs cl).
+Proof. exact multiround_centroids_majority. Qed.
